@@ -40,6 +40,31 @@ static int current_num_values;
 static size_t last_size_generated;
 static int line_being_generated;
 
+/* Line runs of the code generated into the initializer block (A_INITIALIZER).  That block is appended
+ * to the program by i_generate___INIT(); its runs are appended to A_LINENUMBERS at the same moment. */
+static size_t init_last_size_generated;
+static int init_line_being_generated;
+static unsigned char *init_line_runs;
+static size_t init_line_runs_size, init_line_runs_max;
+
+static void add_init_line_run (ptrdiff_t sz, int line) {
+  short s = (short)line;
+
+  while (sz > 0)
+    {
+      ptrdiff_t n = (sz > 255) ? 255 : sz;
+      if (init_line_runs_size + 3 > init_line_runs_max)
+        {
+          init_line_runs_max = init_line_runs_max ? init_line_runs_max * 2 : 96;
+          init_line_runs = (unsigned char *) DREALLOC (init_line_runs, init_line_runs_max, TAG_COMPILER, "add_init_line_run");
+        }
+      init_line_runs[init_line_runs_size] = (unsigned char)n;
+      memcpy (init_line_runs + init_line_runs_size + 1, &s, sizeof (short));
+      init_line_runs_size += 3;
+      sz -= n;
+    }
+}
+
 static int push_state;
 static int push_start;
 
@@ -350,7 +375,17 @@ static void switch_to_line (int line) {
   short s;
   unsigned char *p;
 
-  /* should be fixed later */
+  if (current_block == A_INITIALIZER)
+    {
+      sz = CURRENT_PROGRAM_SIZE - init_last_size_generated;
+      if (sz)
+        {
+          init_last_size_generated += sz;
+          add_init_line_run (sz, init_line_being_generated);
+        }
+      init_line_being_generated = line;
+      return;
+    }
   if (current_block != A_PROGRAM)
     return;
 
@@ -444,7 +479,7 @@ void i_generate_node (parse_node_t * expr) {
   if (!expr)
     return;
 
-  if (expr->line && expr->line != line_being_generated)
+  if (expr->line && expr->line != (current_block == A_INITIALIZER ? init_line_being_generated : line_being_generated))
     switch_to_line (expr->line);
   switch (expr->kind)
     {
@@ -1003,8 +1038,17 @@ i_generate_inherited_init_call (int index, int f)
 void
 i_generate___INIT ()
 {
-  add_to_mem_block (A_PROGRAM, (char *) mem_block[A_INITIALIZER].block,
-                    mem_block[A_INITIALIZER].current_size);
+  size_t init_size = mem_block[A_INITIALIZER].current_size;
+
+  /* close the last run of the functions, then take over the runs recorded for the initializer code */
+  switch_to_line (line_being_generated);
+  if (init_size > init_last_size_generated)
+    add_init_line_run ((ptrdiff_t)(init_size - init_last_size_generated), init_line_being_generated);
+  if (init_line_runs_size)
+    add_to_mem_block (A_LINENUMBERS, (char *) init_line_runs, init_line_runs_size);
+  last_size_generated += init_size;
+
+  add_to_mem_block (A_PROGRAM, (char *) mem_block[A_INITIALIZER].block, init_size);
   prog_code = mem_block[A_PROGRAM].block + mem_block[A_PROGRAM].current_size;
 }
 
@@ -1114,6 +1158,9 @@ i_initialize_parser ()
 
   line_being_generated = 0;
   last_size_generated = 0;
+  init_line_being_generated = 0;
+  init_last_size_generated = 0;
+  init_line_runs_size = 0;
 }
 
 void
